@@ -3,6 +3,7 @@ use super::curve_line::*;
 use crate::geo::*;
 use crate::bezier::*;
 use crate::bezier::solve::*;
+use crate::consts::*;
 
 use smallvec::*;
 
@@ -39,7 +40,7 @@ where
     // Attempt to find where the 't' value is for each ray intersection against the linear section
     let curve_intersections = ray_intersections.iter()
         .filter_map(|(curved_t, _ray_t, pos)| {
-            let linear_t = solve_curve_for_t_along_axis(linear_section, pos, accuracy);
+            let linear_t = solve_curve_for_t_along_axis(linear_section, pos, accuracy.max(CLOSE_DISTANCE));
 
             linear_t.map(|linear_t| (linear_t, *curved_t))
         })
